@@ -484,9 +484,14 @@ class FileSystemStoreBackend(StoreBackendBase, StoreBackendMixin):
             if os.path.dirname(location) and os.path.basename(location) == "joblib"
             else location
         )
-        with open(os.path.join(cache_directory, ".gitignore"), "w") as file:
-            file.write("# Created by joblib automatically.\n")
-            file.write("*\n")
+        try:
+            with open(os.path.join(cache_directory, ".gitignore"), "w") as file:
+                file.write("# Created by joblib automatically.\n")
+                file.write("*\n")
+        except OSError:
+            # A cache directory that cannot be written (shared read-only
+            # cache) can still serve the results it holds.
+            pass
 
         # item can be stored compressed for faster I/O
         self.compress = backend_options.get("compress", False)
